@@ -379,6 +379,10 @@ def gen_scenario(rng, profile):
     serial_timeout = rng.choice([0.02, 0.05, 0.2])
     if kind == 'sync_serial':
         opts['serial_timeout'] = serial_timeout
+    if kind == 'sync_tcp' and rng.random() < profile.get('socket_timeout_rate', 0.0):
+        # idle periods longer than this make the handler's recv() raise socket.timeout (pieces of one frame are
+        # never further apart than 12.5 ms, so a frame in flight is not hit)
+        opts['socket_timeout'] = rng.choice([0.05, 0.2])
     if profile.get('custom_rate') and rng.random() < profile['custom_rate']:
         opts['custom_fc'] = True        # the application registered its own function code 0x41 on this server
     models = {u: refdev.RefUnit(l) for u, l in units.items()}
